@@ -596,6 +596,8 @@ package fdo
 //@   local n = extract0:call:io.Copy#1
 //@   props C16 C10(sweep)
 //@   sweep bounds,panic,make,nilmem,div
+//@   callsites io.Copy 1
+//@   callassert io.Copy#1: @discard u(arg1) == u(messageBody) && u(arg0) == u(io.Discard)
 //@   callsites Receive 1
 //@   callassert Receive#1: @args u(arg0) == u(mod) && u(arg2) == u(messageName) && u(arg3) == u(messageBody)
 //@   ensures @drained ? err == nil ==> n <= 0
@@ -611,8 +613,10 @@ package fdo
 //@   local messageName = extract1:call:strings.Cut#1
 //@   local module = MakeInterface#2 | Phi#3 | extract1:call:serviceinfo.ModuleStateMachine.Module#1
 //@   local moduleName = Phi#2 | extract0:call:serviceinfo.ModuleStateMachine.Module#1 | extract0:call:strings.Cut#1
-//@   props C16 C08 C10(sweep,assert)
+//@   props C16 C08 C05(functional) C10(sweep,assert)
 //@   sweep bounds,panic,make,nilmem,div
+//@   callsites io.Copy 1
+//@   callassert io.Copy#1: @discard u(arg1) == u(messageBody) && u(arg0) == u(io.Discard)
 //@   callsites Module 1
 //@   callsites HandleInfo 1
 //@   callsites produceOwnerServiceInfo 1
